@@ -1582,7 +1582,13 @@ func (x *Exec) specGoCall(st *State, call func() []Out) Value {
 		}
 	}
 	if len(rets) != 1 {
-		fail("call in spec expression has %d outcomes (not mergeable: impure or panicking)", len(outs))
+		why := ""
+		for _, o := range outs {
+			if o.kind != oRet {
+				why += " [" + o.msg + "]"
+			}
+		}
+		fail("call in spec expression has %d returning outcomes of %d (not mergeable: impure or panicking)%s", len(rets), len(outs), why)
 	}
 	if rets[0].st != st {
 		// adopt callee state (pure calls only add fresh cells/axioms)
